@@ -17,6 +17,10 @@ Also here: the two DEFECTIVE finishes the window schedules are meant to catch â€
 `relocFinishUncond` (the re-pointing as it was before the repair of D29: unconditional, `Index.Update`)
 and `relocFinishWeak` (a seeded change: `Index.Relocate` refuses only when offset AND size of the
 current block both differ from the old one).
+
+Second part: one hand-over pass of primary GC (`freelistPass`) split at ITS two hook points
+(`primary.gc.tgc_done`, `primary.gc.flushed`): `toGC`, `priFlush`, and `passApply` (the rest);
+`freelistPass_split` ties the split to `freelistPass`.
 Core Lean only.
 -/
 import Sth.Model.GC
@@ -76,6 +80,39 @@ theorem relocate_split (m : Mem) (d : Disk) (fnum : Nat) (file : Bytes) (at_ bus
         cases indexKeyOf .mh kv.1 with
         | none => rfl
         | some ik => rfl
+
+/-! ### the hand-over pass of primary GC, split at its two hook points
+
+`freelistPass` = `toGC` (hook point `primary.gc.tgc_done`), `priFlush` (hook point `primary.gc.flushed`),
+`passApply`.  Other threads' calls may run at either hook point. -/
+
+/-- the part of a hand-over pass after the primary flush: processFreeList on the hand-over file -/
+def passApply (m : Mem) (d : Disk) (budget : Budget) : FlOut Ã— Mem Ã— Disk Ã— Budget Ã— List Nat :=
+  let gcData := d.freeGc.getD []
+  let (entries, complete) := parseFreeList (gcData.length + 1) gcData []
+  let (expired, budget) :=
+    if gcData.isEmpty then (false, budget) else freelistPass.pollN entries.length budget
+  if expired then (.deadline, m, d, budget, []) else
+  let (files, affected) := if entries.isEmpty then (d.pfiles, []) else deleteRecords m.pmax d.pfiles entries
+  let d := { d with pfiles := files }
+  let (expired, budget) := if gcData.isEmpty then (false, budget) else poll budget
+  if expired then (.deadline, m, d, budget, affected) else
+  if !complete then (.err, m, d, budget, affected) else
+  (.ok, m, { d with freeGc := none }, budget, affected)
+
+/-- the split is `freelistPass`: hand-over, flush and apply with nothing in between -/
+theorem freelistPass_split (m : Mem) (d : Disk) (budget : Budget) :
+    freelistPass m d budget =
+      match priFlush (toGC m d).1 (toGC m d).2 with
+      | none => (.flushErr, (toGC m d).1, (toGC m d).2, budget, [])
+      | some (m1, d1) => passApply m1 d1 budget := by
+  unfold freelistPass passApply
+  cases toGC m d with
+  | mk m0 d0 =>
+    simp only
+    cases priFlush m0 d0 with
+    | none => rfl
+    | some p => rfl
 
 /-! ### the defective finishes -/
 
